@@ -7,6 +7,14 @@ package main
 //   fresh   the same pipeline on run-structured build pairs, also evaluated by the model
 //           (Patch/Stream.v write_patch, Patch/Patcher.v apply_patch_fresh, Bowl/Fresh.v)
 //   apply1  wsync.ApplySingleFull on an in-memory pool at tiny block sizes vs apply_range
+//           also split pairs: one old file cut at block boundaries into consecutive new files
+//           with whole-file copies / other files in between (state carried from one new file
+//           to the next through the shared old-build pool)
+//   ""      big runs (oracle only): fresh runs of about wsync.MaxDataOp (4 MiB +/- up to two
+//           blocks, twice that) after 0-3 reused blocks, up to the end of the file or followed
+//           by reused blocks; split pairs with high-entropy contents
+//   apply1  also sequences of ranges through ONE wsync.Context and ONE pool with fspool's
+//           single cached reader, which other users of the pool move in between
 //   craft   hand-made message lists (full-file ops with trailing ops, short/long outputs,
 //           out-of-bounds ranges, unknown kinds, truncated series, bsdiff series) vs apply_fresh
 
@@ -33,10 +41,19 @@ func runC01(c *Ctx) error {
 	if err := c01Apply1(c); err != nil {
 		return err
 	}
+	if err := c01ApplySeq(c); err != nil {
+		return err
+	}
 	if err := c01Craft(c); err != nil {
 		return err
 	}
 	if err := c01Fresh(c); err != nil {
+		return err
+	}
+	if err := c01Split(c); err != nil {
+		return err
+	}
+	if err := c01BigRuns(c); err != nil {
 		return err
 	}
 	return c01Pairs(c)
@@ -226,6 +243,15 @@ func c01Corpus(c *Ctx) error {
 	ps = append(ps, pair{"empties", mk(file("e.bin", nil), lib.Entry{Path: "d1/d2", Kind: "dir"}, lib.Entry{Path: "l", Kind: "link", Dest: "d1"}),
 		mk(file("e.bin", nil), file("e2.bin", nil), lib.Entry{Path: "d1", Kind: "dir"}, lib.Entry{Path: "l", Kind: "link", Dest: "d1/d2"}),
 		[]string{"empty", "dir-removed", "link-retarget"}})
+	// an old file cut at block boundaries into consecutive new files (each piece followed by a few
+	// fresh bytes, the last one being the short tail), with - in container order - a verbatim copy
+	// of the whole file, then of another old file, between the pieces
+	w := cat(blk(1, BS), blk(2, BS), blk(3, 200))
+	o := cat(blk(6, BS), blk(7, 5))
+	ps = append(ps, pair{"split-around-copy", mk(file("pack/whole.bin", w), file("pack/other.bin", o), file("readme", []byte("hello"))),
+		mk(file("pack/a-part1.bin", cat(w[:BS], []byte("end of part one"))), file("pack/b-whole.bin", w), file("pack/c-part2.bin", cat(w[BS:2*BS], []byte("end of part two"))),
+			file("pack/d-other.bin", o), file("pack/e-tail.bin", w[2*BS:]), file("readme", []byte("hello"))),
+		[]string{"split", "copy", "split-resumed", "rename", "same"}})
 	for _, p := range ps {
 		if err := runFreshCase(c, "c01-corpus-"+p.name, p.old, p.new, freshOpts{class: "corpus/" + p.name, comps: lib.Compressions, model: true, rel: p.rel, subkey: p.name}); err != nil {
 			return err
